@@ -33,6 +33,9 @@ CHECKS = {
  "C02": dict(level="model_checking", technique="explicit-state BFS over shard operations on a real tsdb.Store/tsm1 engine (state = model content + physical layout), every transition followed by exhaustive reads vs a last-write-wins reference model",
    text="BFS over 17 operations (write batches of all five field types with duplicate, out-of-order, extreme and identical timestamps, a 16-point duplicate/out-of-order batch, a type-conflicting point, snapshot, full/optimize/level/planned compactions through the real strategies and planner, two range deletes, reopen) to depth 4 (5 thorough; tsi1 as well in thorough), plus an 8-operation core alphabet to depth 6 (7 thorough), on a real store with WAL and 2 points per block. After every transition each measurement field is read over 10 ranges/directions through Shard.CreateIterator and each series field through the storage cursor path and compared with the model; a conflicting point must be reported as a partial write dropping exactly it.",
    note="2 points per block stand for 1000; runs inside a synctest bubble so background loops are inert; a batch that gives a brand-new field two types is outside the statement and skipped.", ref="§6 C02"),
+ "C10": dict(level="model_checking", technique="explicit-state BFS over write/delete/drop/snapshot/compaction/reopen histories on a real tsdb.Store for both index types, every transition followed by exhaustive reads and index listings vs a reference model; hang watchdog",
+   text="(a) BFS over 20 operations (writes to three series in two measurements incl. writes after deletes, closed/open-ended/single-instant range deletes, series drops by tag predicate within one and across all measurements, DROP MEASUREMENT, whole-database delete, snapshot, full and optimize compaction, reopen) from an empty shard and from a two-file base state, depth 3-4 (4-5 thorough), inmem and tsi1. After every transition all reads (iterator and cursor paths) and all listings (measurement names, tag keys, tag values, series of the index, series cardinality) must equal the model: deleted points never reappear, series with points stay listed, fully deleted series/tag values/measurements are not listed. Parts (b) crash points and (c) schedules of DESIGN are not built yet.",
+   note="runs in a synctest bubble (background loops inert); a run that does not finish within 120 s real time is reported as a hang; known tsi1 tag-value finding is tolerated so that states behind it are still explored.", ref="§6 C10"),
 }
 NA_REASON = "check not built yet in this round (planned in DESIGN.md §6); nothing is claimed for it"
 m = {
